@@ -257,13 +257,14 @@ func runC05(cfg *config) *Report {
 		desc string
 	}
 	var rcases []rcase
-	nFiles := 1
+	// one forward and one return file at least: the two item kinds have their own records, JSON members and decoders
+	nFiles := 2
 	if cfg.tier == "thorough" {
-		nFiles = 5
+		nFiles = 6
 	}
 	var docs []any
 	for fi := 0; fi < nFiles; {
-		f, err := genFile(r, genOpts{maxCL: 1, maxBundles: 1, maxItems: 2, mutateP: 30})
+		f, err := genFile(r, genOpts{maxCL: 1, maxBundles: 1, maxItems: 2, mutateP: 30, kind: 1 + fi%2})
 		if err != nil {
 			continue
 		}
